@@ -356,6 +356,7 @@ func flStall(prop string) {
 	free := vfShape("free", 1, n)
 	K := vfShape("advops", 1, flMaxOps)
 	w := flSetup(n, free)
+	vfInfeasibleOK() // operation sequences whose recycles have nothing to recycle (few free slots)
 	vfShared(w.mem, flStride)
 	vfShared(w.ghost, flStride)
 	vfSpawn(func() { w.step(0, 0, w.views[0]) })
